@@ -119,4 +119,14 @@ HARNESSES = [
                 dict(id="k2w1", defines=dict(K2, WIDX=1, MAXWAIT=0), unwind=8, label=L2, tier="quick"),
                 dict(id="k2w1_wake", defines=dict(K2, WIDX=1, MAXWAIT=1), unwind=8, label=L2, tier="thorough"),
                 dict(id="k3w2", defines=dict(K3, WIDX=2), unwind=10, label=L3, tier="thorough")]),
+    # per-worker contexts are made and bound in the block processor's constructor
+    dict(name="create_ctx", file="create_ctx.c", label="bounded(workers <= 4)", timeout=600,
+         fp={"block_processor_destroy:destroy": "stub_pool_destroy", "destroy": "stub_obj_destroy",
+             "copy": "stub_cmp_copy", "get_worker_count": "stub_get_worker_count",
+             "set_worker_ptr": "stub_set_worker_ptr", "do_block": "stub_do_block",
+             "read_at": "stub_read_at"},
+         unwind=6,
+         cases=[dict(id="w%d_q%d" % (w, q), defines={"WORKERS": w, "BACKLOG": q, "BS": 4096},
+                     tier="quick")
+                for w, q in ((1, 0), (2, 3), (3, 3), (4, 3), (4, 10), (4, 1))]),
 ]
